@@ -90,4 +90,25 @@ def compile (validate : Def β → Bool) (gen : BState → Def β → Option Str
   (generateAll gen st (groupByModule valid)).2 ++ iw.2.map (fun d => Ev.replWarn d.hdr.name d.name) ++
     invalid.map (fun d => Ev.valWarn d.name)
 
+/-! ### the fold of `generate_module` with the errors as the generator raises them: an error may or may not
+    carry the definition it is about (`GeneratorError::top_level_declaration`) -/
+
+/-- what `generate_tld` answers for one definition: the text, or an error that names a definition or none -/
+inductive GenOut where
+  | ok (text : String)
+  | err (subject : Option String)
+  deriving DecidableEq, Repr
+
+/-- one warning of the fold *before* fix `5af954a`: the error's own subject, which may be missing -/
+def warnSubjectOld (_x : Def β) (e : Option String) : Option String := e
+/-- … and since the fix: "if e.top_level_declaration.is_none() { e.top_level_declaration = Some(subject) }" -/
+def warnSubject (x : Def β) (e : Option String) : Option String := some (e.getD x.name)
+
+/-- subjects of the events of one module's fold (`None`: a warning that names nobody) -/
+def moduleSubjects (ws : Def β → Option String → Option String) (gen : Def β → GenOut) (tlds : List (Def β)) : List (Option String) :=
+  tlds.map fun x => match gen x with
+    | .ok _ => some x.name
+    | .err e => ws x e
+
+
 end Pipe
